@@ -38,6 +38,43 @@ func registerIntercepts(ex *Explorer) {
 		t := c.nondet(args[0].(string), kU256)
 		return newU256(c, t)
 	})
+	ndIn := func(gk types.BasicKind) func(fr *frame, args []value) value {
+		return func(fr *frame, args []value) value {
+			c := fr.i.ctx
+			k := kindOfBasic(gk)
+			t := c.nondet(args[0].(string), k)
+			lo, ok1 := concreteBig(args[1])
+			hi, ok2 := concreteBig(args[2])
+			if !ok1 || !ok2 {
+				unsupp("Nondet*In with symbolic bounds")
+			}
+			if lo.Cmp(t.lo) > 0 {
+				t.lo = lo
+			}
+			if hi.Cmp(t.hi) < 0 {
+				t.hi = hi
+			}
+			if t.lo.Cmp(t.hi) > 0 {
+				panic(pathEnd{"empty range"})
+			}
+			return symv{k: k, gk: gk, t: t, ctx: c}
+		}
+	}
+	ex.register(zz+"NondetI64In", ndIn(types.Int64))
+	ex.register(zz+"NondetU64In", ndIn(types.Uint64))
+	ex.register(zz+"NondetU256Below", func(fr *frame, args []value) value {
+		c := fr.i.ctx
+		t := c.nondet(args[0].(string), kU256)
+		b := u256Load(args[1])
+		if !b.isConst() {
+			unsupp("NondetU256Below with symbolic bound")
+		}
+		t.hi = new(big.Int).Sub(b.c, big1)
+		if t.hi.Sign() < 0 {
+			panic(pathEnd{"empty range"})
+		}
+		return newU256(c, t)
+	})
 	ex.register(zz+"Symbolic", func(fr *frame, args []value) value { return true })
 	ex.register(zz+"Choose", func(fr *frame, args []value) value {
 		c := fr.i.ctx
